@@ -185,6 +185,17 @@ func (g *Generator) generateMockFieldAssignments(
 		fieldName := field.GoName
 		fieldPath := messageName + "." + string(field.Desc.Name())
 
+		// The assignments below fit plain singular fields only: a repeated field is a slice,
+		// a proto3 optional field a pointer, and a oneof member lives in a wrapper type.
+		if (field.Desc.IsList() || field.Oneof != nil) && field.Desc.Kind() != protoreflect.MessageKind {
+			gf.P("// TODO: Handle field ", fieldName, " (repeated, optional or oneof member)")
+			continue
+		}
+		if field.Oneof != nil {
+			gf.P("// TODO: Handle oneof member ", fieldName)
+			continue
+		}
+
 		// Generate assignment based on field type
 		switch field.Desc.Kind() {
 		case protoreflect.StringKind:
@@ -198,11 +209,15 @@ func (g *Generator) generateMockFieldAssignments(
 				g.getDefaultGenerator(field),
 				")",
 			)
-		case protoreflect.Int32Kind, protoreflect.Int64Kind:
+		case protoreflect.Int32Kind:
+			gf.P(varName, ".", fieldName, " = int32(selectIntExample(\"", fieldPath, "\", ", g.getDefaultValue(field), "))")
+		case protoreflect.Int64Kind:
 			gf.P(varName, ".", fieldName, " = selectIntExample(\"", fieldPath, "\", ", g.getDefaultValue(field), ")")
 		case protoreflect.BoolKind:
 			gf.P(varName, ".", fieldName, " = selectBoolExample(\"", fieldPath, "\", ", g.getDefaultValue(field), ")")
-		case protoreflect.FloatKind, protoreflect.DoubleKind:
+		case protoreflect.FloatKind:
+			gf.P(varName, ".", fieldName, " = float32(selectFloatExample(\"", fieldPath, "\", ", g.getDefaultValue(field), "))")
+		case protoreflect.DoubleKind:
 			gf.P(varName, ".", fieldName, " = selectFloatExample(\"", fieldPath, "\", ", g.getDefaultValue(field), ")")
 		case protoreflect.MessageKind:
 			switch {
